@@ -119,9 +119,12 @@ class Abs where
   fn : String → List Val → Val
   castF : String → Val → Val
 
+/-- `COALESCE(v₁, …)`: the first value that is not NULL -/
+def coalesceVal (args : List Val) : Val := (args.find? (fun v => v != Val.null)).getD .null
+
 /-- `coalesce` is interpreted, every other function is abstract -/
 def fnVal [Abs] (name : String) (args : List Val) : Val :=
-  if name = "coalesce" then (args.find? (fun v => v != Val.null)).getD .null else Abs.fn name args
+  if name = "coalesce" then coalesceVal args else Abs.fn name args
 
 /-- searched CASE over the flattened operand list `[c₁, r₁, c₂, r₂, …, (else)]` -/
 def caseSearchedVal : List Val → Val
